@@ -34,3 +34,16 @@ unsafe fn adaptive_lf_smoothing_core_avx2(
 ) -> crate::Result<()> {
     generic::adaptive_lf_smoothing_impl(width, height, lf_image, lf_scale, tracker)
 }
+
+/// Verification hook H3: exposes the crate-private vectorised 2-D DCT and single-varblock
+/// transforms.
+#[cfg(jxl_oxide_verif)]
+pub use transform::{verif_transform, verif_transform_sse2};
+
+#[cfg(jxl_oxide_verif)]
+pub fn verif_dct_2d(
+    io: &mut jxl_grid::MutableSubgrid<'_>,
+    direction: super::dct_common::DctDirection,
+) {
+    dct::dct_2d_x86_64_sse2(io, direction)
+}
